@@ -2043,7 +2043,9 @@ struct Engine
             h.u64(static_cast<uint64_t>(b->arena));
             h.u64(b->bytes);
             h.u64(b->elem_size);
-            h.bytes(reinterpret_cast<const void*>(b->p), b->bytes);
+            // the bytes of the block - unless the stored objects contain absolute addresses, which differ from process
+            // to process; for such lists the data block is represented by the model contents only
+            if (!LS::HAS_ADDRESS_BYTES) h.bytes(reinterpret_cast<const void*>(b->p), b->bytes);
         }
         {
             // live objects in (block order, offset) order - never in absolute address order, which depends on
